@@ -365,8 +365,12 @@ def meta(ctx):
         "pattern matching itself (regexec/fnmatch) and the option -> trigger-table translation (utils/filter.c) are "
         "exercised by the tie but not modelled; one trigger spec per function",
         "source-location filters (-L), finish, recover, argument capture and events are outside this model",
-        "full `select` refinement proved for -t/-D only; -F/-N/-C/trigger semantics are tied by correspondence + "
-        "restoration/nesting theorems",
+        "refinement to the documented semantics is proved for -F/-N/-C/-D/-t and the trigger actions filter/notrace/"
+        "depth=(>0)/time=/size=/trace (specifications sel, sel2; the -pg shape under pg_guard, outside it the known leak); "
+        "trace_on/trace_off, finish, -L and depth=0 are tied by correspondence + the restoration and embedded-sub-history "
+        "theorems only",
+        "theorems quantify over complete call forests within --max-stack and clock readings < 2^64 that do not go "
+        "backwards inside a call; end times are non-zero (libmcount uses 0 for 'still running')",
     ]
 
 
